@@ -350,6 +350,11 @@ def _sample(case, rng):
         x[rng.choice(n, k, replace=False)] = 0.0
     else:
         x = np.where(x <= 0, 10.0 ** -(case["round"] or 3), x)
+    # units as an input class: the same observations in femto-units (positive values below machine epsilon are still
+    # observations) or mega-units
+    unit = [1.0, 1.0, 1e-16, 1.0, 1e6, 1e-9][int(case["sub"]) % 6]
+    if unit != 1.0:
+        x = x * unit
     if case["order"] == "sorted":
         x = np.sort(x)
     elif case["order"] == "reversed":
